@@ -600,20 +600,21 @@ def check_C05(tier, seed):
         "InvalidToken, and four further next() calls after the first None")
 
 
-LOC_SIGMA = (97, 10, 9, 233, 769, 28450, 128512)
+LOC_SIGMA = (97, 10, 9, 27, 233, 769, 28450, 128512)
 
 
 def check_C06(tier, seed):
     n, k = sizes(tier, (40, 3), (300, 4))
     progs = F.random_general(seed, n, 100, k=k, nsets=(1,), nrules=(2, 3, 4), p_eoi=0.1,
-                             menu_sizes=(1, 2), p_fal=0.1, letters=LOC_SIGMA[:6] if False else (97, 10, 9, 233, 769, 28450, 128512),
+                             menu_sizes=(1, 2), p_fal=0.1, letters=LOC_SIGMA,
                              sigma=LOC_SIGMA, depth=2)
     progs += F.join_templates(seed + 3, n // 3, 6000, k=k + 1, letters=(97, 10, 233, 28450), sigma=(97, 10, 233, 28450, 769),
                               p_eoi=0.2, nsets=(1, 2), p_ctx=0.3)
     return generic_replay_check(
         "C06", tier, progs, proj_c06_pair,
         "a location (line, column, byte index) or match text differs from the fold over the input",
-        "programs: seeded random definitions over the location alphabet {a, newline, tab, e-acute "
+        "programs: seeded random definitions over the location alphabet {a, newline, tab, ESC (a "
+        "control character: no width of its own, counts 1), e-acute "
         "(2 bytes), combining acute (2 bytes, width 0), CJK (3 bytes, width 2), emoji (4 bytes, "
         "width 2)} whose rules overlap so that lexers rewind; " + INPUTS_RULE +
         "compared: all Loc triples of match_loc(), tokens and errors, and match_() text")
@@ -1384,6 +1385,45 @@ def class_family(seed, n, base_id, tables=None):
     return out
 
 
+def guard_size_family(seed, base_id):
+    """Hand-written classes with 8..11 pieces (one-character and longer ranges mixed), i.e. just
+    below and above the size at which code generation switches from a chain of range guards to a
+    binary-search table (MAX_GUARD_SIZE = 9), in four positions: alone (terminal target), before
+    another character (kept target state), twice in one rule (one table, two states), and as a
+    right context."""
+    import random
+    from progs import set_, chr_, cat, any_, opt
+    rnd = random.Random(seed * 31 + 5)
+    out = []
+    for n in (8, 9, 10, 11):
+        for shape in ("alone", "kept", "twice", "ctx"):
+            c0 = 40
+            items = []
+            for _ in range(n):
+                ln = rnd.choice([1, 1, 2, 3])
+                items.append((c0, c0 + ln - 1))
+                c0 += ln + rnd.choice([1, 2])
+            rnd.shuffle(items)
+            cls = set_(items)
+            pts = set()
+            for a, b_ in items:
+                pts |= {a - 1, a, b_, b_ + 1}
+            if shape == "alone":
+                rules = [F.simple_rule(cls), F.simple_rule(any_())]
+                sig, k = sorted(pts), 1
+            elif shape == "kept":
+                rules = [F.simple_rule(cat(cls, chr_(120))), F.simple_rule(cls), F.simple_rule(any_())]
+                sig, k = sorted(pts | {120}), 2
+            elif shape == "twice":
+                rules = [F.simple_rule(cat(cls, cls)), F.simple_rule(any_())]
+                sig, k = sorted(rnd.sample(sorted(pts), min(len(pts), 14))), 2
+            else:
+                rules = [F.simple_rule(chr_(120), ctx=cls), F.simple_rule(chr_(120)), F.simple_rule(any_())]
+                sig, k = sorted(pts | {120}), 2
+            out.append(Program(base_id + len(out), [("Init", rules)], sigma=sig, k=k, named=False))
+    return [p for p in out if p.well_formed()]
+
+
 def check_C11(tier, seed):
     from common import Workspace, run_tlc, run_parallel, BUILD, HARNESS
     out = Outcome("C11")
@@ -1478,7 +1518,9 @@ def check_C11(tier, seed):
                 "with the predicate ranges imported as the specification's tables) run on every "
                 "boundary point +-1 against RefLexer.tla; and families.arm_family (classes in the "
                 "middle of rules that share a prefix: one state with character, range and `_` arms "
-                "at once) on all inputs of length <= 3" % maxpoint,
+                "at once) on all inputs of length <= 3; and hand-written classes of 8..11 pieces (around "
+                "the guard-chain / search-table threshold) alone, before a character, twice in a rule "
+                "and as a right context, on every boundary point" % maxpoint,
         "samples": [{"transition": trs[0]}] if trs else [],
         "tlc_cmd": tlc.cmd, "exhaustive": True,
     }
@@ -1488,6 +1530,8 @@ def check_C11(tier, seed):
     progs = [p for p in class_family(seed, n, 100, tables=tables)]
     # classes in the middle of a rule, several of them leaving the same state (families.arm_family)
     progs += F.arm_family(seed + 1, sizes(tier, 100, 500), 50000)
+    # classes just below / above the guard-chain vs. binary-search-table threshold
+    progs += guard_size_family(seed, 70000)
     byid = {p.id: p for p in progs}
     fr = replay_family("C11", progs, workers=8, tlc_timeout=900)
     other = replay_violations(out, fr, lambda evs: proj_tokens(evs, stop_at_invalid=False), byid,
